@@ -377,6 +377,8 @@ class TimerRecorder:
 
     def __init__(self) -> None:
         self.records: list[dict] = []
+        self.oc: dict | None = None  # the OPENCONFIRM wait: {'tW', 'reads': [(t, kind)], 'out'}
+        self._in_oc = False
         self._saved: dict = {}
         self._nested = 0
         kinds = kind_objects()
@@ -442,6 +444,36 @@ class TimerRecorder:
 
         RT.__init__, RT.check_ka_timer, RT.check_ka = r_init, check_ka_timer, check_ka  # type: ignore[method-assign]
         ST.__init__, ST.need_ka = s_init, need_ka  # type: ignore[method-assign]
+
+        # OPENCONFIRM: Peer._read_ka (entry = the wait begins; exit = established / Notify) and what
+        # Protocol.read_message hands to read_keepalive meanwhile
+        from exabgp.reactor.peer.peer import Peer
+        from exabgp.reactor.protocol import Protocol
+
+        self._saved[(Peer, '_read_ka')] = Peer._read_ka
+        self._saved[(Protocol, 'read_message')] = Protocol.read_message
+
+        async def _read_ka(peer: Any) -> None:
+            rec.oc = {'tW': rec._now(), 'reads': [], 'out': 'waiting'}
+            rec._in_oc = True
+            try:
+                r = await rec._saved[(Peer, '_read_ka')](peer)
+                rec.oc['out'] = f'established {rec._now()}'
+                return r
+            except Notify as e:
+                rec.oc['out'] = f'notify {rec._now()} {e.code} {e.subcode}'
+                raise
+            finally:
+                rec._in_oc = False
+
+        async def read_message(proto: Any) -> Any:
+            m = await rec._saved[(Protocol, 'read_message')](proto)
+            if rec._in_oc:
+                rec.oc['reads'].append((rec._now(), rec._kind(m)))
+            return m
+
+        Peer._read_ka = _read_ka  # type: ignore[method-assign]
+        Protocol.read_message = read_message  # type: ignore[method-assign]
         return self
 
     def __exit__(self, *a: Any) -> None:
@@ -449,11 +481,15 @@ class TimerRecorder:
             setattr(klass, name, f)
 
 
-def run_establishment(local: int, peer: int, arrivals_ms: list[int], arrival_kind: str = 'keepalive', routes: int = 0, until_ms: int | None = None) -> dict:
+def run_establishment(local: int, peer: int, arrivals_ms: list[int], arrival_kind: str = 'keepalive', routes: int = 0, until_ms: int | None = None, stage: str = 'established') -> dict:
     """Real OPEN exchange (our hold time `local`, the peer's `peer`), real `_establish` and `_main` of a
     real Peer over a socketpair under virtual time (harness/sessionrig.run_hold_scenario); the remote
-    writes `arrival_kind` at `arrivals_ms` after ESTABLISHED and is silent otherwise.
-    Returns the scenario result plus 'records' (calls on the peer's own timers) and 'until_ms'."""
+    writes `arrival_kind` at `arrivals_ms` after ESTABLISHED and is silent otherwise.  With
+    `stage='openconfirm'` the remote sends only its OPEN: the arrivals are counted from the moment the
+    peer sits in OPENCONFIRM, and the first one (if any) is what ends the wait of `Peer._read_ka`.
+    Returns the scenario result plus 'records' (calls on the peer's own timers), 'oc' (the OPENCONFIRM
+    wait as the peer lived it: entry time, every read_message result with its clock reading, outcome)
+    and 'until_ms'."""
     from harness import sessionrig
 
     sessionrig.install()
@@ -462,8 +498,9 @@ def run_establishment(local: int, peer: int, arrivals_ms: list[int], arrival_kin
         last = max(arrivals_ms) if arrivals_ms else 0
         until_ms = last + ((h + 5) * 1000 if h else (max(local, peer) + 8) * 1000)
     with TimerRecorder() as rec:
-        res = sessionrig.run_hold_scenario(local, list(arrivals_ms), until_ms=until_ms, peer_hold=peer, routes=routes, arrival_kind=arrival_kind)
+        res = sessionrig.run_hold_scenario(local, list(arrivals_ms), until_ms=until_ms, stage=stage, peer_hold=peer, routes=routes, arrival_kind=arrival_kind)
     res['records'] = rec.records
+    res['oc'] = rec.oc
     res['until_ms'] = until_ms
     return res
 
@@ -487,6 +524,18 @@ def establishment_lines(local: int, peer: int, records: list[dict]) -> tuple[lis
             lines.append(f'timer need {r["t"]}')
             impl.append(r['res'] + ' s=' + r['state'])
     return lines, impl
+
+
+def openconfirm_line(local: int, peer: int, oc: dict, until_ms: int) -> str:
+    """The OPENCONFIRM wait the peer lived, as one model query. `now`: the end of the observation is at
+    least `until_ms` after the wait began (and not before whatever happened)."""
+    now = oc['tW'] + until_ms
+    for t, _ in oc['reads']:
+        now = max(now, t)
+    if oc['out'] != 'waiting':
+        now = max(now, int(oc['out'].split()[1]))
+    arr = ','.join(f'{t}:{k}' for t, k in oc['reads']) or '-'
+    return f'timer openconfirm {local} {peer} {oc["tW"]} {now} {arr}'
 
 
 def model_view(op_line: str, model_answer: str) -> str:
